@@ -16,6 +16,8 @@
       built from grammars containing the one asked for and the tensor is long enough.
 -/
 import PS.Proofs.Predictor
+import PS.Proofs.PredictorIndex
+import PS.Proofs.PredictorSoftmax
 namespace PS.Predictor
 open PS
 
@@ -468,6 +470,359 @@ example : (∃ lp, logProbabilityU exRulesU [1]
 example : encodeU exLU exRulesU [1] exProg = some [1, 0, 0, 1, 0] := by decide
 
 end Examples
+
+/-! ## Closed forms in the RAW tensor, and the slice table `abs2index`
+
+  The theorems above speak about the tags as computed from the slice-wise normalised tensor.  The
+  ones below are about the caller's RAW tensor `x` and about layers built by the constructors
+  (`mkLayerDet`, `mkLayerU` = `__init__`), for ANY grammars, abstraction function and iteration
+  order of the sets.  `rawAt L x S P` (PS/Proofs/PredictorSoftmax.lean) is `x[posOf L S P]`: the raw
+  entry at the position that `encode` marks for the rule `(S, P)` (`C19_encode_det/_u`). -/
+
+/-- **C19_prim_weight_raw (det).** The slice-wide log-softmax cancels: for every non-terminal `S`
+    of the grammar asked for and every primitive rule `P` of `S`, the position `posOf L S P` is
+    inside the tensor and
+
+      `exp(tag(S,P)) = c · exp(x_P) / Σ_{Q primitive rule derivable from S} exp(x_Q)`
+
+    where `x_Q = x[posOf L S Q]` are RAW tensor entries, `c = 1 - variable_probability` when `S`
+    has variables or constants and `c = 1` otherwise. -/
+theorem C19_prim_weight_raw_det {ρ : Type} (abstraction : NT → Abs) (iter : Abs → List DP → List DP)
+    (grammars : List (AList NT (AList DP ρ))) (v ε : ℝ) (tvo : Bool)
+    (rules : AList NT (AList DP (List NT))) (x : List ℝ) (tags : AList NT (AList DP ℝ))
+    (h : tensor2logProbDet (mkLayerDet abstraction iter grammars) v ε tvo rules x = some tags)
+    (hv1 : v < 1) (hwf : wfRules rules = true) :
+    List.Forall₂ (fun e t => t.1 = e.1 ∧
+      ∀ P ∈ AList.keys e.2, P.kind = .prim →
+        ∃ pos tag, posOf (mkLayerDet abstraction iter grammars) e.1 P = some pos ∧ pos < x.length
+          ∧ AList.lookup P t.2 = some tag
+          ∧ Real.exp tag = (if countKind .var e.2 + countKind .const e.2 = 0 then 1 else 1 - v)
+              * Real.exp (rawAt (mkLayerDet abstraction iter grammars) x e.1 P)
+              / (((AList.keys e.2).filter (kindIs .prim)).map
+                  (fun Q => Real.exp (rawAt (mkLayerDet abstraction iter grammars) x e.1 Q))).sum) rules tags := by
+  have hc : Consec 0 (mkLayerDet abstraction iter grammars).abs2index := by
+    rw [mkLayerDet_eq]; exact (mkLayerU_consec abstraction iter _).1
+  have hf := allSomeL_forall₂_of _ (fun e => (AList.keys e.2).Nodup) rules tags h (wfRules_mem hwf)
+  refine hf.imp ?_
+  intro e t ⟨hnd, het⟩
+  exact ⟨tagEntryDet_fst _ v ε tvo _ e t het, tagEntryDet_raw _ hc v ε tvo x e t het hnd hv1⟩
+
+/-- non-vacuity of `C19_prim_weight_raw_det`: its hypotheses hold on the literal layer of the
+    examples above (`exL = mkLayerDet exAbs (fun _ s => s) [exRules]`) with the tensor `[0, 3, -2, 80]` -/
+example : (∃ tags, tensor2logProbDet (mkLayerDet exAbs (fun _ s => s) [exRules]) (1/5 : ℝ) (1/10^7) true exRules
+      [0, 3, -2, 80] = some tags) ∧ (1/5 : ℝ) < 1 ∧ wfRules exRules = true := by
+  refine ⟨?_, by norm_num, by decide⟩
+  show ∃ tags, tensor2logProbDet exL (1/5 : ℝ) (1/10^7) true exRules [0, 3, -2, 80] = some tags
+  rw [exL_eq]
+  simp [tensor2logProbDet, allSomeL, tagEntryDet, exRules, exLlit, AList.lookup, primTags, slice, normalize,
+    AList.keys, plus, one, x0, cst, setSlice, logSoftmax]
+
+theorem exL_rawAt (x : List ℝ) : rawAt exL x 1 plus = x.getD 0 0 ∧ rawAt exL x 1 one = x.getD 1 0 := by
+  rw [exL_eq]
+  constructor <;> simp [rawAt, posOf, exLlit, AList.lookup, plus, one]
+
+/-- … and what the theorem says there: at `S1 -> + S2 S3 | 1` (raw entries 0 and 3, no variable) the
+    weight of `+` is `e^0 / (e^0 + e^3)` -/
+example (tags : AList NT (AList DP ℝ))
+    (h : tensor2logProbDet exL (1/5 : ℝ) (1/10^7) true exRules [0, 3, -2, 80] = some tags) :
+    ∃ t ∈ tags, t.1 = 1 ∧ ∃ tag, AList.lookup plus t.2 = some tag
+      ∧ Real.exp tag = Real.exp 0 / (Real.exp 0 + Real.exp 3) := by
+  have := C19_prim_weight_raw_det exAbs (fun _ s => s) [exRules] _ _ _ _ _ _ h (by norm_num) (by decide)
+  change List.Forall₂ _ ((1, [(plus, [2, 3]), (one, [])]) :: _) _ at this
+  obtain ⟨t, ts, h1, _, rfl⟩ := List.forall₂_cons_left_iff.mp this
+  refine ⟨t, by simp, h1.1, ?_⟩
+  obtain ⟨pos, tag, _, _, a3, a4⟩ := h1.2 plus (by simp [AList.keys]) rfl
+  refine ⟨tag, a3, ?_⟩
+  rw [a4]
+  have e1 := exL_rawAt [0, 3, -2, 80]
+  have hck : countKind Kind.var [(plus, [2, 3]), (one, ([] : List NT))]
+      + countKind Kind.const [(plus, [2, 3]), (one, ([] : List NT))] = 0 := by decide
+  have hf : List.filter (kindIs Kind.prim) (AList.keys [(plus, [2, 3]), (one, ([] : List NT))]) = [plus, one] := by
+    decide
+  simp only [hck, if_true, hf, List.map_cons, List.map_nil, List.sum_cons, List.sum_nil]
+  change _ * Real.exp (rawAt exL _ 1 plus) / (Real.exp (rawAt exL _ 1 plus) + (Real.exp (rawAt exL _ 1 one) + 0)) = _
+  rw [e1.1, e1.2]
+  simp
+
+/-- **C19_prim_weight_raw (U).** The same closed form for the unambiguous layer, per alternative:
+    every alternative `k` of a primitive rule `P` of `S` has
+
+      `exp(tag(S,P,k)) = c · exp(x_P) / Σ_{Q primitive rule of S} (number of alternatives of Q) · exp(x_Q)`
+
+    (raw entries `x_Q = x[posOf L S Q]`); and — after fix 97880ac — the alternatives of the
+    variables, numbered `j = 0, 1, …` in the order of the loops (`pairsOf`), have weight
+    `vp/(M+C) - j·ε'` and every alternative of a constant `vp/(M+C) - M·ε'`, where `M`, `C` are
+    the numbers of variable and constant alternatives, `vp = variable_probability` if a primitive
+    alternative exists and 1 otherwise, `ε' = ε` with the ordering trick and 0 without. -/
+theorem C19_prim_weight_raw_u {ρ : Type} (abstraction : NT → Abs) (iter : Abs → List DP → List DP)
+    (grammars : List (AList NT (AList DP ρ) × List NT)) (v ε : ℝ) (tvo : Bool)
+    (rules : AList NT (AList DP (List Alt))) (starts : List NT) (x : List ℝ)
+    (tags : AList NT TagsU) (st : AList NT ℝ)
+    (h : tensor2logProbU (mkLayerU abstraction iter grammars) v ε tvo rules starts x = some (tags, st))
+    (hv0 : 0 < v) (hv1 : v < 1) (hε : 0 ≤ ε) (hwf : wfRules rules = true) (hwa : wfAlts rules = true) :
+    List.Forall₂ (fun e t => t.1 = e.1 ∧
+      (∀ r ∈ e.2, r.1.kind = .prim → ∀ k ∈ r.2,
+        ∃ pos d tag, posOf (mkLayerU abstraction iter grammars) e.1 r.1 = some pos ∧ pos < x.length
+          ∧ AList.lookup r.1 t.2 = some d ∧ AList.lookup k d = some tag
+          ∧ Real.exp tag = (if countKind .var e.2 + countKind .const e.2 = 0 then 1 else 1 - v)
+              * Real.exp (rawAt (mkLayerU abstraction iter grammars) x e.1 r.1)
+              / ((e.2.filter (fun r => kindIs .prim r.1)).map
+                  (fun r => (r.2.length : ℝ) * Real.exp (rawAt (mkLayerU abstraction iter grammars) x e.1 r.1))).sum)
+      ∧ (0 < countAlts .var e.2 + countAlts .const e.2 →
+          hypEps v ε tvo (decide (0 < countAlts .prim e.2)) (countAlts .var e.2) (countAlts .const e.2) = true →
+          (∀ j (hj : j < (pairsOf (e.2.filter (fun p => kindIs .var p.1))).length), ∃ d tag,
+              AList.lookup (pairsOf (e.2.filter (fun p => kindIs .var p.1)))[j].1 t.2 = some d
+              ∧ AList.lookup (pairsOf (e.2.filter (fun p => kindIs .var p.1)))[j].2 d = some tag
+              ∧ Real.exp tag = (if 0 < countAlts .prim e.2 then v else 1)
+                    / ((countAlts .var e.2 : ℝ) + countAlts .const e.2) - j * (if tvo then ε else 0))
+          ∧ (∀ q ∈ pairsOf (e.2.filter (fun p => kindIs .const p.1)), ∃ d tag,
+              AList.lookup q.1 t.2 = some d ∧ AList.lookup q.2 d = some tag
+              ∧ Real.exp tag = (if 0 < countAlts .prim e.2 then v else 1)
+                    / ((countAlts .var e.2 : ℝ) + countAlts .const e.2)
+                    - (countAlts .var e.2 : ℝ) * (if tvo then ε else 0)))) rules tags := by
+  have hc := (mkLayerU_consec abstraction iter grammars).1
+  unfold tensor2logProbU at h
+  simp only [] at h
+  split at h
+  · rename_i t s ht _
+    simp only [Option.some.injEq, Prod.mk.injEq] at h
+    obtain ⟨rfl, rfl⟩ := h
+    have hf := allSomeL_forall₂_of _ (fun e => (AList.keys e.2).Nodup ∧ ∀ r ∈ e.2, r.2.Nodup) rules t ht
+      (fun e he => ⟨wfRules_mem hwf e he, wfAlts_mem hwa e he⟩)
+    refine hf.imp ?_
+    intro e t' ⟨⟨hnd, halts⟩, het⟩
+    obtain ⟨a1, a2⟩ := tagEntryU_raw _ hc v ε tvo x e t' het hv0 hv1 hε hnd halts
+    refine ⟨tagEntryU_fst _ v ε tvo _ e t' het, ?_, ?_⟩
+    · intro r hr hk k hkm
+      obtain ⟨pos, tag, b1, b2, b3, b4⟩ := a1 r hr hk k hkm
+      obtain ⟨d, d1, d2⟩ := innerLookup_some b3
+      exact ⟨pos, d, tag, b1, b2, d1, d2, b4⟩
+    · intro hMC hhyp
+      obtain ⟨c1, c2⟩ := a2 hMC hhyp
+      refine ⟨?_, ?_⟩
+      · intro j hj
+        obtain ⟨tag, b1, b2⟩ := c1 j hj
+        obtain ⟨d, d1, d2⟩ := innerLookup_some b1
+        exact ⟨d, tag, d1, d2, b2⟩
+      · intro q hq
+        obtain ⟨tag, b1, b2⟩ := c2 q hq
+        obtain ⟨d, d1, d2⟩ := innerLookup_some b1
+        exact ⟨d, tag, d1, d2, b2⟩
+  · simp at h
+
+/-- non-vacuity of `C19_prim_weight_raw_u` (and of `C19_start_weight_raw_u`, whose only hypothesis is the
+    first conjunct): the hypotheses hold on `exLU = mkLayerU exAbs (fun _ s => s) [(exRulesU, [1])]` -/
+example : (∃ tags st, tensor2logProbU (mkLayerU exAbs (fun _ s => s) [(exRulesU, [1])]) (1/5 : ℝ) (1/10^7) true
+      exRulesU [1] [0, 3, -2, 80, 7] = some (tags, st))
+    ∧ (0 : ℝ) < 1/5 ∧ (1/5 : ℝ) < 1 ∧ (0 : ℝ) ≤ 1/10^7 ∧ wfRules exRulesU = true ∧ wfAlts exRulesU = true := by
+  refine ⟨?_, by norm_num, by norm_num, by norm_num, by decide, by decide⟩
+  show ∃ tags st, tensor2logProbU exLU (1/5 : ℝ) (1/10^7) true exRulesU [1] [0, 3, -2, 80, 7] = some (tags, st)
+  rw [exLU_eq]
+  simp [tensor2logProbU, allSomeL, tagEntryU, exRulesU, exLUlit, AList.lookup, primTagsU, slice, normalize,
+    plus, one, x0, cst, setSlice, logSoftmax, startTagsU, AList.insert, setInner]
+
+/-- … and what the theorem says at `S2 -> var0 | cst | 1` (one variable alternative, one constant
+    alternative, `hypEps` holds): `var0` has weight `(1/5)/2`, `cst` has `(1/5)/2 - 1e-7` -/
+example (tags : AList NT TagsU) (st : AList NT ℝ)
+    (h : tensor2logProbU exLU (1/5 : ℝ) (1/10^7) true exRulesU [1] [0, 3, -2, 80, 7] = some (tags, st)) :
+    ∃ t ∈ tags, t.1 = 2 ∧ (∃ d tag, AList.lookup x0 t.2 = some d ∧ AList.lookup [] d = some tag
+        ∧ Real.exp tag = (1/5 : ℝ) / 2)
+      ∧ (∃ d tag, AList.lookup cst t.2 = some d ∧ AList.lookup [] d = some tag
+        ∧ Real.exp tag = (1/5 : ℝ) / 2 - 1/10^7) := by
+  have := C19_prim_weight_raw_u exAbs (fun _ s => s) [(exRulesU, [1])] _ _ _ _ _ _ _ _ h
+    (by norm_num) (by norm_num) (by norm_num) (by decide) (by decide)
+  change List.Forall₂ _ (_ :: (2, [(x0, [[]]), (cst, [[]]), (one, [[]])]) :: _) _ at this
+  obtain ⟨t1, ts1, _, hrest, rfl⟩ := List.forall₂_cons_left_iff.mp this
+  obtain ⟨t, ts2, h2, _, rfl⟩ := List.forall₂_cons_left_iff.mp hrest
+  refine ⟨t, by simp, h2.1, ?_⟩
+  have hV : countAlts .var [(x0, [[]]), (cst, [[]]), (one, ([[]] : List Alt))] = 1 := by decide
+  have hC : countAlts .const [(x0, [[]]), (cst, [[]]), (one, ([[]] : List Alt))] = 1 := by decide
+  have hP : countAlts .prim [(x0, [[]]), (cst, [[]]), (one, ([[]] : List Alt))] = 1 := by decide
+  have hpv : pairsOf (List.filter (fun p => kindIs .var p.1) [(x0, [[]]), (cst, [[]]), (one, ([[]] : List Alt))])
+      = [(x0, [])] := by decide
+  have hpc : pairsOf (List.filter (fun p => kindIs .const p.1) [(x0, [[]]), (cst, [[]]), (one, ([[]] : List Alt))])
+      = [(cst, [])] := by decide
+  obtain ⟨b1, b2⟩ := h2.2.2 (by decide) (by
+    show hypEps (1/5 : ℝ) (1/10^7) true
+      (decide (0 < countAlts .prim [(x0, [[]]), (cst, [[]]), (one, ([[]] : List Alt))]))
+      (countAlts .var [(x0, [[]]), (cst, [[]]), (one, ([[]] : List Alt))])
+      (countAlts .const [(x0, [[]]), (cst, [[]]), (one, ([[]] : List Alt))]) = true
+    rw [hV, hC, hP]; simp [hypEps]; norm_num)
+  constructor
+  · obtain ⟨d, tag, c1, c2, c3⟩ := b1 0 (by decide)
+    change ∃ d tag, AList.lookup (x0, ([] : Alt)).1 t.2 = some d ∧ AList.lookup (x0, ([] : Alt)).2 d = some tag ∧ _
+    refine ⟨d, tag, ?_, ?_, ?_⟩
+    · convert c1 using 2; simp [hpv]
+    · convert c2 using 2; simp [hpv]
+    · rw [c3]
+      show (if 0 < countAlts Kind.prim [(x0, [[]]), (cst, [[]]), (one, ([[]] : List Alt))] then (1/5 : ℝ) else 1) /
+        ((countAlts Kind.var [(x0, [[]]), (cst, [[]]), (one, ([[]] : List Alt))] : ℝ)
+          + countAlts Kind.const [(x0, [[]]), (cst, [[]]), (one, ([[]] : List Alt))]) - _ = _
+      rw [hV, hC, hP]; norm_num
+  · obtain ⟨d, tag, c1, c2, c3⟩ := b2 (cst, []) (by
+      show (cst, ([] : Alt)) ∈ pairsOf (List.filter (fun p => kindIs .const p.1)
+        [(x0, [[]]), (cst, [[]]), (one, ([[]] : List Alt))])
+      rw [hpc]; simp)
+    refine ⟨d, tag, c1, c2, ?_⟩
+    rw [c3]
+    show (if 0 < countAlts Kind.prim [(x0, [[]]), (cst, [[]]), (one, ([[]] : List Alt))] then (1/5 : ℝ) else 1) /
+        ((countAlts Kind.var [(x0, [[]]), (cst, [[]]), (one, ([[]] : List Alt))] : ℝ)
+          + countAlts Kind.const [(x0, [[]]), (cst, [[]]), (one, ([[]] : List Alt))])
+        - (countAlts Kind.var [(x0, [[]]), (cst, [[]]), (one, ([[]] : List Alt))] : ℝ) * _ = _
+    rw [hV, hC, hP]; norm_num
+
+/-- **C19_start_weight_raw (U).** The start tags are the softmax of RAW tensor entries: there is a
+    table `d` (`start_tags` before its normalisation) whose entry for a start symbol `S` of the
+    grammar asked for is the raw entry `x[output_size - len(all_starts_abs) + j]`, `j` the index of
+    the abstraction of `S` in `all_starts_abs` — `__normalize__` does not touch that part — and
+    `exp(start_tag S) = exp(d[S]) / Σ_{S'} exp(d[S'])`. -/
+theorem C19_start_weight_raw_u {ρ : Type} (abstraction : NT → Abs) (iter : Abs → List DP → List DP)
+    (grammars : List (AList NT (AList DP ρ) × List NT)) (v ε : ℝ) (tvo : Bool)
+    (rules : AList NT (AList DP (List Alt))) (starts : List NT) (x : List ℝ)
+    (tags : AList NT TagsU) (st : AList NT ℝ)
+    (h : tensor2logProbU (mkLayerU abstraction iter grammars) v ε tvo rules starts x = some (tags, st)) :
+    ∃ d : AList NT ℝ, AList.keys st = AList.keys d
+      ∧ (∀ S t, AList.lookup S d = some t → S ∈ starts ∧ ∃ (j : ℕ) (a : Abs),
+          (mkLayerU abstraction iter grammars).allStartsAbs[j]? = some a
+          ∧ S ∈ ((mkLayerU abstraction iter grammars).abs2real.lookup a).getD []
+          ∧ x[(mkLayerU abstraction iter grammars).outputSize
+                - (mkLayerU abstraction iter grammars).allStartsAbs.length + j]? = some t)
+      ∧ (∀ S t, AList.lookup S d = some t → ∃ tag, AList.lookup S st = some tag
+          ∧ Real.exp tag = Real.exp t / (d.map (fun e => Real.exp e.2)).sum) := by
+  obtain ⟨hc, hn⟩ := mkLayerU_consec abstraction iter grammars
+  unfold tensor2logProbU at h
+  simp only [] at h
+  split at h
+  · rename_i t s _ hs
+    simp only [Option.some.injEq, Prod.mk.injEq] at h
+    obtain ⟨rfl, rfl⟩ := h
+    rw [startTagsU_normalize _ starts x hc hn] at hs
+    obtain ⟨d, hd, hk, hcl⟩ := startTagsU_closed _ starts x _ hs
+    refine ⟨d, hk, ?_, hcl⟩
+    intro S t hl
+    obtain ⟨b1, j, a, b2, b3, b4⟩ := startRawU_from _ starts _ d hd S t hl
+    refine ⟨b1, j, a, b2, b3, ?_⟩
+    rw [List.getElem?_drop] at b4
+    exact b4
+  · simp at h
+
+/-- **C19_index_bijection.** The slice table of a constructed layer (`iter k s` is the iteration
+    order of the Python set `all_pairs[k]`: a permutation of it).  With `L = mkLayerU …`:
+    1. distinct (abstraction key, primitive) pairs are read at distinct tensor positions
+       `start + index`;
+    2. an index lies inside its slice `[start, start+length)`, every slice lies before the start
+       part of the tensor (`… + len(all_starts_abs) ≤ output_size`), only primitives are indexed;
+    3. every position `p < output_size - len(all_starts_abs)` is the position of a pair (so the
+       positions of the pairs are exactly `[0, output_size - len(all_starts_abs))`, the remaining
+       `len(all_starts_abs)` positions are the start part, item 6);
+    4. for every rule table `(S, r)` of every grammar given to the constructor: `real2abs[S]` is the
+       abstraction of `S`, it has a slice, and every primitive rule of `S` has an index in that one
+       slice (`posOf` is defined: no KeyError);
+    5. the primitive rules of one non-terminal are read at pairwise distinct positions;
+    6. `all_starts_abs` is duplicate free, contains the abstraction of every start symbol, and
+       `output_size = Σ_k len(all_pairs[k]) + len(all_starts_abs)`. -/
+theorem C19_index_bijection {ρ : Type} (abstraction : NT → Abs) (iter : Abs → List DP → List DP)
+    (hiter : ∀ k s, (iter k s).Perm s) (grammars : List (AList NT (AList DP ρ) × List NT)) :
+    (∀ (k1 k2 : Abs) (s1 l1 s2 l2 : ℕ) (sym1 sym2 : AList DP ℕ) (P1 P2 : DP) (i1 i2 : ℕ),
+        AList.lookup k1 (mkLayerU abstraction iter grammars).abs2index = some (s1, l1, sym1) →
+        AList.lookup k2 (mkLayerU abstraction iter grammars).abs2index = some (s2, l2, sym2) →
+        AList.lookup P1 sym1 = some i1 → AList.lookup P2 sym2 = some i2 →
+        s1 + i1 = s2 + i2 → k1 = k2 ∧ P1 = P2)
+    ∧ (∀ (k : Abs) (s l : ℕ) (sym : AList DP ℕ) (P : DP) (i : ℕ),
+        AList.lookup k (mkLayerU abstraction iter grammars).abs2index = some (s, l, sym) →
+        AList.lookup P sym = some i →
+        i < l ∧ s + l + (mkLayerU abstraction iter grammars).allStartsAbs.length
+                  ≤ (mkLayerU abstraction iter grammars).outputSize ∧ P.kind = .prim)
+    ∧ (∀ p, p + (mkLayerU abstraction iter grammars).allStartsAbs.length
+              < (mkLayerU abstraction iter grammars).outputSize →
+        ∃ k s l sym P i, AList.lookup k (mkLayerU abstraction iter grammars).abs2index = some (s, l, sym)
+          ∧ AList.lookup P sym = some i ∧ p = s + i)
+    ∧ (∀ g ∈ grammars, ∀ e ∈ g.1, ∃ s l sym,
+        AList.lookup e.1 (mkLayerU abstraction iter grammars).real2abs = some (abstraction e.1)
+        ∧ AList.lookup (abstraction e.1) (mkLayerU abstraction iter grammars).abs2index = some (s, l, sym)
+        ∧ ∀ P ∈ AList.keys e.2, P.kind = .prim →
+            ∃ i, AList.lookup P sym = some i ∧ i < l
+              ∧ posOf (mkLayerU abstraction iter grammars) e.1 P = some (s + i))
+    ∧ (∀ g ∈ grammars, ∀ e ∈ g.1, ∀ P ∈ AList.keys e.2, ∀ Q ∈ AList.keys e.2,
+        P.kind = .prim → Q.kind = .prim →
+        posOf (mkLayerU abstraction iter grammars) e.1 P = posOf (mkLayerU abstraction iter grammars) e.1 Q →
+        P = Q)
+    ∧ ((mkLayerU abstraction iter grammars).allStartsAbs.Nodup
+        ∧ (∀ g ∈ grammars, ∀ S ∈ g.2, abstraction S ∈ (mkLayerU abstraction iter grammars).allStartsAbs)
+        ∧ (mkLayerU abstraction iter grammars).outputSize
+            = sumLens (mkLayerU abstraction iter grammars).allPairs
+              + (mkLayerU abstraction iter grammars).allStartsAbs.length) := by
+  refine ⟨?_, ?_, ?_, ?_, ?_, starts_spec abstraction iter grammars⟩
+  · intro k1 k2 s1 l1 s2 l2 sym1 sym2 P1 P2 i1 i2 h1 h2 hp1 hp2 heq
+    exact index_inj abstraction iter grammars hiter k1 k2 s1 l1 s2 l2 sym1 sym2 P1 P2 i1 i2 h1 h2 hp1 hp2 heq
+  · intro k s l sym P i h hp
+    exact index_range abstraction iter grammars hiter k s l sym P i h hp
+  · intro p hp
+    apply index_cover abstraction iter grammars hiter p
+    have := (starts_spec abstraction iter grammars).2.2
+    omega
+  · intro g hg e he
+    obtain ⟨s, l, sym, a1, a2, _, a4⟩ := index_rules abstraction iter grammars hiter g hg e he
+    exact ⟨s, l, sym, a1, a2, a4⟩
+  · intro g hg e he P hP Q hQ hkP hkQ heq
+    obtain ⟨s, l, sym, a1, a2, _, a4⟩ := index_rules abstraction iter grammars hiter g hg e he
+    obtain ⟨i, b1, _, b3⟩ := a4 P hP hkP
+    obtain ⟨i', c1, _, c3⟩ := a4 Q hQ hkQ
+    rw [b3, c3] at heq
+    exact (index_inj abstraction iter grammars hiter _ _ s l s l sym sym P Q i i' a2 a2 b1 c1
+      (Option.some.inj heq)).2
+
+/-- the deterministic constructor builds the same table (it is the unambiguous constructor
+    without start symbols), so `C19_index_bijection` applies to it verbatim -/
+theorem C19_index_bijection_det {ρ : Type} (abstraction : NT → Abs) (iter : Abs → List DP → List DP)
+    (grammars : List (AList NT (AList DP ρ))) :
+    mkLayerDet abstraction iter grammars = mkLayerU abstraction iter (grammars.map (fun g => (g, [])))
+    ∧ (mkLayerDet abstraction iter grammars).allStartsAbs = [] := by
+  refine ⟨mkLayerDet_eq abstraction iter grammars, ?_⟩
+  rw [mkLayerDet_eq]
+  -- no start symbol is ever added
+  have : ∀ (gs : List (AList NT (AList DP ρ))) (L : Layer), L.allStartsAbs = [] →
+      (gs.foldl (fun L g => initStarts abstraction (initRules abstraction L g) []) L).allStartsAbs = [] := by
+    intro gs
+    induction gs with
+    | nil => intro L hL; exact hL
+    | cons g r ih =>
+      intro L hL
+      simp only [List.foldl_cons]
+      apply ih
+      have e1 : (initStarts abstraction (initRules abstraction L g) []).allStartsAbs
+          = (initRules abstraction L g).allStartsAbs := rfl
+      rw [e1]
+      have : ∀ (rs : AList NT (AList DP ρ)) (L : Layer), (initRules abstraction L rs).allStartsAbs = L.allStartsAbs := by
+        intro rs
+        induction rs with
+        | nil => intro L; rfl
+        | cons p q ih2 => intro L; simp only [initRules, List.foldl_cons] at ih2 ⊢; rw [ih2]; rfl
+      rw [this, hL]
+  have e2 : (mkLayerU abstraction iter (grammars.map (fun g => (g, ([] : List NT))))).allStartsAbs
+      = (grammars.foldl (fun L g => initStarts abstraction (initRules abstraction L g) []) {}).allStartsAbs := by
+    unfold mkLayerU
+    rw [List.foldl_map]
+    rfl
+  rw [e2]
+  exact this grammars {} rfl
+
+/-- non-vacuity of `C19_index_bijection` on `exLU` (identity iteration order): every position
+    `p < 4 = output_size - len(all_starts_abs)` is the position of a pair, and the two primitive
+    rules of `S1` are read at different positions -/
+example : (∀ p, p < 4 → ∃ k s l sym P i, AList.lookup k exLU.abs2index = some (s, l, sym)
+      ∧ AList.lookup P sym = some i ∧ p = s + i)
+    ∧ posOf exLU 1 plus ≠ posOf exLU 1 one := by
+  have hb := C19_index_bijection exAbs (fun _ s => s) (fun _ s => List.Perm.refl s) [(exRulesU, [1])]
+  constructor
+  · intro p hp
+    refine hb.2.2.1 p ?_
+    show p + exLU.allStartsAbs.length < exLU.outputSize
+    rw [exLU_eq]; simp [exLUlit]; omega
+  · intro h
+    have := hb.2.2.2.2.1 (exRulesU, [1]) (by simp) (1, [(plus, [[2, 3]]), (one, [[]])]) (by simp [exRulesU])
+      plus (by simp [AList.keys]) one (by simp [AList.keys]) rfl rfl h
+    exact absurd this (by decide)
 
 /-! ## Findings (witnesses on the model): C19-F1 = C04-F1 is open in the code; C19-F2 was repaired (97880ac) -/
 
